@@ -94,6 +94,7 @@ class Exec:
 
     def havoc(self, ty):
         ty = (ty or "").strip()
+        ty = re.sub(r"^(?:&(?:'\w+ )?(?:mut )?)+", "", ty)      # references are transparent
         if ty in INT_RANGES:
             return self.fresh_int(ty)
         if ty == "bool":
@@ -292,6 +293,16 @@ class Exec:
         if m:
             a = self.operand(env, m.group(1))
             return ("bool", f"(not {a[1]})") if a[0] == "bool" else self.havoc("bool")
+        m = re.match(r"^deref_copy (.*)$", rv)
+        if m:
+            return self.place(env, m.group(1))
+        m = re.match(r"^\{closure@[^}]*\} \{ (.*) \}$", rv)
+        if m:
+            fields = {}
+            for part in split_top(m.group(1)):
+                k, _, v = part.partition(":")
+                fields[k.strip()] = self.operand(env, v)
+            return ("struct", "closure", fields)
         m = re.match(r"^(?:PtrMetadata|Len)\((.*)\)$", rv)
         if m:
             v = self.operand(env, m.group(1)) if m.group(1).startswith(("copy", "move")) else self.place(env, m.group(1))
@@ -344,6 +355,15 @@ class Exec:
         m = re.match(r"^((?:move|copy) \S+) as .* \(PointerCoercion\((?:Unsize|MutToConstPointer)", rv)
         if m:
             return self.operand(env, m.group(1))            # unsizing a reference does not change what it denotes
+        m = re.match(r"^((?:move|copy) \S+) as ([iu](?:8|16|32|64|size)) \(IntToInt\)$", rv)
+        if m:
+            v = self.operand(env, m.group(1))
+            r = self.fresh_int(m.group(2), "cast")
+            if v[0] == "int":
+                lo, hi = INT_RANGES[m.group(2)]
+                # a value that fits the target type is preserved by the cast (wrapping otherwise: left unconstrained)
+                self.side.append(f"(=> (and (<= {int_lit(lo)} {v[1]}) (<= {v[1]} {int_lit(hi)})) (= {r[1]} {v[1]}))")
+            return r
         m = re.match(r"^(?:move|copy) .* as .* \(\w+(?:\(.*\))?\)$", rv)
         if m:
             return self.havoc(self.locs.get(dst))
@@ -485,16 +505,46 @@ def match_paren(s, i):
 
 
 def contradicts_literal(cond):
-    """`(= 3 5)` / `(not (= 3 3))`-style conditions over two integer literals that are plainly false"""
-    m = re.match(r"^\(= (-?\d+|\(- \d+\)) (-?\d+|\(- \d+\))\)$", cond)
-    if m:
-        return m.group(1) != m.group(2)
-    m = re.match(r"^\(and ((?:\(not \(= (?:-?\d+|\(- \d+\)) (?:-?\d+|\(- \d+\))\)\) ?)+)\)$", cond)
-    if m:
-        for a, b in re.findall(r"\(not \(= (-?\d+|\(- \d+\)) (-?\d+|\(- \d+\))\)\)", m.group(1)):
-            if a == b:
-                return True
-    return False
+    """conditions without any symbol (drop flags, fixed discriminants): evaluated here, infeasible branches are not explored"""
+    if "|" in cond:
+        return False
+    toks = re.findall(r"\(|\)|[^\s()]+", cond)
+    pos = [0]
+
+    def ev():
+        t = toks[pos[0]]
+        pos[0] += 1
+        if t == "true":
+            return True
+        if t == "false":
+            return False
+        if re.match(r"^-?\d+$", t):
+            return int(t)
+        if t != "(":
+            raise ValueError(t)
+        op = toks[pos[0]]
+        pos[0] += 1
+        args = []
+        while toks[pos[0]] != ")":
+            args.append(ev())
+        pos[0] += 1
+        if op == "not":
+            return not args[0]
+        if op == "and":
+            return all(args)
+        if op == "or":
+            return any(args)
+        if op == "=":
+            return args[0] == args[1]
+        if op == "-" and len(args) == 1:
+            return -args[0]
+        if op in ("<", "<=", ">", ">="):
+            return {"<": args[0] < args[1], "<=": args[0] <= args[1], ">": args[0] > args[1], ">=": args[0] >= args[1]}[op]
+        raise ValueError(op)
+    try:
+        return ev() is False
+    except Exception:
+        return False
 
 
 def parse_call(st):
